@@ -130,6 +130,18 @@ class StateGraphMonitor(Monitor):
         run.world.listeners.append(self.on_cut_event)
         self.transitions = set()
         run.world.on_hook('send_state_event', self.on_state)
+        self.newest = {}      # (receiver nick, inc, source identifier) -> (stamp, state) newest payload received
+        run.world.on_hook('fsm_state_event', self.on_state_received)
+
+    def on_state_received(self, inst, status, event):
+        """ State and modes of a peer received by an instance (publication, or answer of a handshake): the newest one
+        by emission stamp is what the instance knows of that peer. """
+        key = (inst.nick, inst.inc, status.identifier)
+        stamp = event.get('now_monotonic', 0.0)
+        if stamp >= self.newest.get(key, (-1.0, None))[0]:
+            self.newest[key] = (stamp, event.get('fsm_statename'))
+        else:
+            self.count('older_state_payloads_received_after_newer_ones')
 
     def on_state(self, inst, payload):
         w = self.run.world
@@ -174,6 +186,14 @@ class StateGraphMonitor(Monitor):
                 mnick = w.by_identifier.get(master)
                 minst = w.instances.get(mnick)
                 mkey = (mnick, minst.inc if minst else 0)
+                known = self.newest.get((inst.nick, inst.inc, master))
+                if state in ('DISTRIBUTION', 'OPERATION', 'CONCILIATION') and known:
+                    # what the instance follows is the newest state it has received from its Master
+                    self.count('slave_entries_checked_against_the_newest_state_received')
+                    if known[1] in ('OFF', 'SYNCHRONIZATION', 'ELECTION'):
+                        self.violate(f'C02/slave-ahead-of-the-newest-state-received-from-its-master:{state}',
+                                     f'{inst.nick} entered {state} at vt={vt(w)} although the newest state and modes it '
+                                     f'has received from its Master {mnick} (stamp {round(known[0], 3)}) say {known[1]}')
                 if state not in self.entered.get(mkey, ()):
                     # the Master may have crashed and restarted meanwhile: look at its previous incarnation too
                     prev_key = (mnick, mkey[1] - 1)
